@@ -33,9 +33,12 @@ type Case struct {
 	Vals    []string `json:"vals"`    // sources of the condition values v0, v1, ...
 	Tree    *E       `json:"tree"`    // the condition / expression
 	Wrapper string   `json:"wrapper"` // expr | return | raise | yield | defer
-	Src     string   `json:"src,omitempty"`
-	Got     string   `json:"got,omitempty"`
-	Want    string   `json:"want,omitempty"`
+	// Flips: the program is evaluated once per entry in the same scope, with the variable `flag` (read by the B of
+	// some condition values) set to the entry first; empty = one evaluation with flag true
+	Flips []bool `json:"flips,omitempty"`
+	Src   string `json:"src,omitempty"`
+	Got   string `json:"got,omitempty"`
+	Want  string `json:"want,omitempty"`
 }
 
 func (e *E) src() string {
@@ -91,6 +94,7 @@ type world struct {
 func build(vals []string) (*world, error) {
 	in := interp.Shared()
 	w := &world{in: in, env: object.NewEnclosedEnv(in.Global)}
+	in.Run("flag := true", interp.Opts{Env: w.env})
 	for i, s := range vals {
 		o := in.Run(s, interp.Opts{Env: object.NewEnclosedEnv(w.env)})
 		if o.Kind != interp.Value {
@@ -98,11 +102,18 @@ func build(vals []string) (*world, error) {
 		}
 		interp.Bind(w.env, fmt.Sprintf("v%d", i), o.Obj)
 		w.objs = append(w.objs, o.Obj)
-		// the rule: true exactly when the B property yields true
-		b := in.EvalNode(interp.PropCall(interp.Ident(fmt.Sprintf("v%d", i)), "B"), interp.Opts{Env: object.NewEnclosedEnv(w.env)})
+	}
+	w.measure()
+	return w, nil
+}
+
+// measure asks every condition value for its B now (the rule: true exactly when the B property yields true).
+func (w *world) measure() {
+	w.truth = w.truth[:0]
+	for i := range w.objs {
+		b := w.in.EvalNode(interp.PropCall(interp.Ident(fmt.Sprintf("v%d", i)), "B"), interp.Opts{Env: object.NewEnclosedEnv(w.env)})
 		w.truth = append(w.truth, b.Kind == interp.Value && b.Obj == object.BuiltInTrue)
 	}
-	return w, nil
 }
 
 func (w *world) truthy(d desc) bool {
@@ -210,6 +221,27 @@ func judge(c *Case) (sig, detail string) {
 		return "", "" // nothing to judge
 	}
 	c.Src = program(*c)
+	flips := c.Flips
+	if len(flips) == 0 {
+		flips = []bool{true}
+	}
+	for round, f := range flips {
+		if len(c.Flips) > 0 {
+			w.in.Run(fmt.Sprintf("flag := %v", f), interp.Opts{Env: w.env})
+			w.measure()
+		}
+		if sig, detail = w.judgeRound(c); sig != "" {
+			if len(c.Flips) > 0 {
+				sig = "flipped:" + sig
+				detail = fmt.Sprintf("evaluation %d of %d in one scope (flag := %v before it; earlier: %v): %s", round+1, len(flips), f, flips[:round], detail)
+			}
+			return sig, detail
+		}
+	}
+	return "", ""
+}
+
+func (w *world) judgeRound(c *Case) (sig, detail string) {
 	var trace []string
 	d := w.ref(c.Tree, &trace)
 	truthy := w.truthy(d)
@@ -288,7 +320,15 @@ var pool = []string{"%{[1]: 2}", "%{{a: 1}: 1}", "%{[1]: 2, 3: 4}", "%{[]: nil}"
 	"{B: m{true}}", "{B: m{false}}", "{B: m{1}}", "{B: m{nil}}", `{B: m{"yes"}}`, "{B: true}", "{B: false}", "{B: 0}", "{B: 1}", `{B: "yes"}`, "{B: nil}", "{B: [1]}",
 	`{B: m{raise Err.new("b")}}`, "{B: m{true}}.bear", "{B: true}.bear", "{B: m{false}}.bear({x: 1})", "{B: false}.bear({x: 1})", "1.bear({B: 1})", "1.bear({B: false})", "0.bear({B: true})", "[].bear({B: true})", "{B: m{true}}.bear.bear",
 	"1.try", "nil.try", "0.try", "1.try.{|x| x/0}", "1.try.{|x| x/0}.err", "<>",
-	"BaseObj", "BaseObj.bear", "BaseObj.bear({a: 1})", "BaseObj.bear({B: true})"}
+	"BaseObj", "BaseObj.bear", "BaseObj.bear({a: 1})", "BaseObj.bear({B: true})",
+	// typed values made with `new` from a prototype that overrides B
+	"Int.bear({B: m{true}}).new(0)", "Int.bear({B: m{false}}).new(5)", `Str.bear({B: m{true}}).new("")`, `Str.bear({B: m{false}}).new("q")`, "Float.bear({B: m{true}}).new(0.0)", "Float.bear({B: m{false}}).new(1.5)",
+	"Nil.bear({B: m{true}}).new", "Arr.bear({B: m{true}}).new([])", "Arr.bear({B: m{false}}).new([1])", "Map.bear({B: m{true}}).new(%{})", "Int.bear({B: true}).new(0)", "Int.bear({B: m{true}}).bear.new(0)", "true.bear({B: m{false}})", "false.bear({B: m{true}})",
+	"Int.bear({B: m{self == 0}}).new(0)", "Int.bear({B: m{self == 0}}).new(1)"}
+
+// flagPool: values whose B reads the variable `flag` of the scope they were written in (so their truth changes when
+// `flag` is reassigned between two evaluations)
+var flagPool = []string{"{B: m{flag}}", "{B: m{!flag}}", "{B: m{flag}}.bear", "Int.bear({B: m{flag}}).new(0)", "Int.bear({B: m{!flag}}).new(1)", `Str.bear({B: m{flag}}).new("")`, "[].bear({B: m{flag}})", "{B: m{1 if flag else 0}}", "{B: m{flag}, a: 1}"}
 
 // zeroTable is the statement's list of built-in zero values (must be falsy) with truthy counterparts.
 var zeroTable = map[string]bool{"0": false, "0.0": false, `""`: false, "[]": false, "{}": false, "%{}": false, "nil": false, "false": false,
@@ -321,7 +361,7 @@ func run(t vt.Failer, c Case, fatal bool) {
 	vt.Eval()
 	vt.Class("wrapper " + c.Wrapper + " / root " + c.Tree.K)
 	sig, detail := judge(&c)
-	key := c.Wrapper + "|" + strings.Join(c.Vals, "|") + "|" + c.Tree.src()
+	key := c.Wrapper + "|" + strings.Join(c.Vals, "|") + "|" + c.Tree.src() + fmt.Sprint(c.Flips)
 	if !(c.Tree.K == "leaf" && (c.Vals[c.Tree.I] == "true" || c.Vals[c.Tree.I] == "false")) {
 		vt.NonTrivial(key, func() any { return map[string]any{"vals": c.Vals, "program": program(c)} })
 	}
@@ -413,6 +453,28 @@ func TestRandomNestings(t *testing.T) {
 		tree := genTree(rapid.IntRange(1, 3).Draw(rt, "depth"), n, &counter).Draw(rt, "tree")
 		wr := rapid.SampledFrom(wrappers).Draw(rt, "wrapper")
 		run(rt, Case{Vals: vals, Tree: tree, Wrapper: wr}, true)
+	})
+}
+
+// TestChangingTruth: the same program evaluated several times in one scope while the B of some values changes in between.
+func TestChangingTruth(t *testing.T) {
+	stable := []string{"7", "nil", "{}", "{a: 1}", `"s"`, "0", "[1]", "{B: m{true}}", "{B: m{false}}"}
+	vt.Check(t, vt.N(3000, 200000), func(rt *rapid.T) {
+		n := rapid.IntRange(1, 4).Draw(rt, "nvals")
+		vals := make([]string, n)
+		for i := range vals {
+			if i == 0 || rapid.Bool().Draw(rt, "flagged") {
+				vals[i] = rapid.SampledFrom(flagPool).Draw(rt, "fval")
+			} else {
+				vals[i] = rapid.SampledFrom(stable).Draw(rt, "val")
+			}
+		}
+		counter := 0
+		tree := genTree(rapid.IntRange(1, 3).Draw(rt, "depth"), n, &counter).Draw(rt, "tree")
+		wr := rapid.SampledFrom(wrappers).Draw(rt, "wrapper")
+		flips := rapid.SliceOfN(rapid.Bool(), 2, 5).Draw(rt, "flips")
+		vt.Class("changing truth")
+		run(rt, Case{Vals: vals, Tree: tree, Wrapper: wr, Flips: flips}, true)
 	})
 }
 
